@@ -2082,7 +2082,6 @@ func (c *Ctx) eqPairing(name string, fd *ast.FuncDecl, call *ast.CallExpr, pr *p
 	}
 }
 
-
 // kindSwitchOf finds the switch over a type's Kind that fd consists of: in fd itself, or — when fd merely delegates
 // (`return !occurs(ty, pred)`: two walkers merged into one traversal) — in the same-package function that is handed fd's
 // own type parameter. Returns the switch and the function that holds it (the recursion target of its arms).
